@@ -14,6 +14,8 @@ SID_NAMES = ["Vec", "Dense", "Default", "HashMap", "BTree", "Null",
              "DerefFlagged<Vec>", "DerefFlagged<Dense>", "DerefFlagged<Default>", "DerefFlagged<HashMap>",
              "DerefFlagged<BTree>"]
 NULL_SID = 5
+UNIT_SIDS = (5, 16, 17)       # zero-sized components: the null storage, and the null storage under both tracking wrappers
+NSIDS = 18
 
 
 class Gen:
@@ -30,7 +32,7 @@ class Gen:
         self.sids = sids
 
     def tok(self, sid):
-        if sid == NULL_SID:
+        if sid in UNIT_SIDS:
             return (0, 0)
         self.uid += 1
         return (self.uid, self.rng.randint(-50, 50))
@@ -139,14 +141,14 @@ class Gen:
             self.hist.append((GET, [sid, h]))
         elif k < 0.48:
             touch, write = rng.randint(0, 1), rng.randint(0, 1)
-            self.hist.append((GETM, [sid, h, touch, write, rng.randint(-50, 50) if sid != NULL_SID else 0]))
+            self.hist.append((GETM, [sid, h, touch, write, rng.randint(-50, 50) if sid not in UNIT_SIDS else 0]))
         elif k < 0.60:
             self.hist.append((REM, [sid, h]))
         elif k < 0.64:
             self.hist.append((CONT, [sid, h]))
         elif k < 0.76:
             sub = rng.randint(0, 4)
-            u, v = self.tok(sid) if sub in (1, 2) else (0, rng.randint(-50, 50) if sid != NULL_SID else 0)
+            u, v = self.tok(sid) if sub in (1, 2) else (0, rng.randint(-50, 50) if sid not in UNIT_SIDS else 0)
             self.hist.append((ENT, [sid, h, sub, u, v]))
         elif k < 0.82:
             self.hist.append((GMD, [sid, h]))
@@ -179,7 +181,7 @@ class Gen:
 
 def random_store_history(rng, length, sids=None, drop_world=True, clear_ok=True):
     g = Gen(rng)
-    pool = sids if sids is not None else list(range(16))
+    pool = sids if sids is not None else list(range(NSIDS))
     nreg = rng.randint(1, min(4, len(pool)))
     first = rng.sample(pool, nreg)
     for sid in first[: max(1, nreg - 1)]:
@@ -220,7 +222,7 @@ def stale_history(rng, sids=None):
     then drive every handle-taking access path through every handle, dead ones included,
     reading the current occupant before and after."""
     g = Gen(rng)
-    pool = sids if sids is not None else list(range(16))
+    pool = sids if sids is not None else list(range(NSIDS))
     for sid in rng.sample(pool, rng.randint(1, min(3, len(pool)))):
         g.register(sid)
     n0 = rng.randint(1, 4)
@@ -263,12 +265,12 @@ def stale_history(rng, sids=None):
     for h in handles[:6]:
         for sid in g.regs:
             occupant = [(GET, [sid, x]) for x in range(g.nh)]
-            paths = [(GET, [sid, h]), (CONT, [sid, h]), (GETM, [sid, h, 1, 1, 77 if sid != NULL_SID else 0]),
+            paths = [(GET, [sid, h]), (CONT, [sid, h]), (GETM, [sid, h, 1, 1, 77 if sid not in UNIT_SIDS else 0]),
                      (REM, [sid, h]), (GMD, [sid, h])]
             u, v = g.tok(sid)
             paths.append((INS, [sid, h, u, v]))
             for sub in range(5):
-                u, v = g.tok(sid) if sub in (1, 2) else (0, 5 if sid != NULL_SID else 0)
+                u, v = g.tok(sid) if sub in (1, 2) else (0, 5 if sid not in UNIT_SIDS else 0)
                 paths.append((ENT, [sid, h, sub, u, v]))
             rng.shuffle(paths)
             for p in paths[: rng.randint(3, len(paths))]:
@@ -283,7 +285,7 @@ def map_history(rng, length, sids=None):
     """C04: storage operations with high remove / re-insert rates, removal from the middle,
     interleaved entry / drain / clear, slices; few deletions."""
     g = Gen(rng)
-    pool = sids if sids is not None else list(range(16))
+    pool = sids if sids is not None else list(range(NSIDS))
     for sid in rng.sample(pool, rng.randint(1, min(3, len(pool)))):
         g.register(sid)
     n = rng.randint(2, 10)
@@ -323,7 +325,7 @@ def purge_history(rng, nsids=None):
     deletion and after every creation that follows (the inherited-component symptom needs a reuse)."""
     g = Gen(rng)
     n = nsids if nsids is not None else rng.choice([1, 2, 3, 5, 16])
-    sids = rng.sample(range(16), n)
+    sids = rng.sample(range(NSIDS), n)
     early = sids[: max(1, n - rng.randint(0, min(2, n - 1)))]
     late = sids[len(early):]
     for sid in early:
@@ -440,7 +442,7 @@ def events_history(rng, length):
     """C12: the ten wrapped storages, readers registered early and read often, every removal path,
     emission toggled at random points, no bulk clear."""
     g = Gen(rng)
-    sids = rng.sample(range(6, 16), rng.randint(1, 3))
+    sids = rng.sample(range(6, NSIDS), rng.randint(1, 3))
     for sid in sids:
         g.register(sid)
         for _ in range(rng.randint(1, 2)):
@@ -492,7 +494,7 @@ def lazy_history(rng, length, sids=None):
     entities, queueing further closures) and lazy builders, interleaved with direct operations, over
     several maintains; targets that die in the same frame; deferred creations on reused indices."""
     g = Gen(rng)
-    pool = sids if sids is not None else list(range(16))
+    pool = sids if sids is not None else list(range(NSIDS))
     for sid in rng.sample(pool, rng.randint(1, min(3, len(pool)))):
         g.register(sid)
     g.hist.append((wg.CI, [rng.randint(1, 4)]))
@@ -582,7 +584,7 @@ def lazy_purge_history(rng):
     the same frame which create entities (taking the indices the merge has just freed), insert for them
     and look them up; everything is observed after the maintain."""
     g = Gen(rng)
-    for sid in rng.sample(range(16), rng.randint(1, 3)):
+    for sid in rng.sample(range(NSIDS), rng.randint(1, 3)):
         g.register(sid)
     for _ in range(rng.randint(1, 4)):
         g.hist.append((wg.C, g.comps(3)))
@@ -625,7 +627,7 @@ def mid_history(rng, sids=None):
     genuinely live entities: inserts, removals (every path), deletions (immediate, deferred, batch), reuse of the
     freed indices, with every storage observed after each step"""
     g = Gen(rng)
-    pool = sids if sids is not None else rng.sample(range(16), rng.randint(1, 3))
+    pool = sids if sids is not None else rng.sample(range(NSIDS), rng.randint(1, 3))
     for sid in pool:
         g.register(sid)
     n = 4096 + rng.randint(3, 120)
@@ -684,7 +686,7 @@ def atomic_frame_history(rng):
     directly, observed through every read path, deleted again (deferred, immediate, in failing batches) before and
     after the maintain that merges them"""
     g = Gen(rng)
-    pool = rng.sample(range(16), rng.randint(1, 3))
+    pool = rng.sample(range(NSIDS), rng.randint(1, 3))
     for sid in pool:
         g.register(sid)
     for _ in range(rng.randint(1, 4)):
